@@ -1,12 +1,17 @@
 #!/usr/bin/env python3
 """Prints the markdown table of seeded changes (from seeded/*/meta.json) for DESIGN.md §10."""
-import json, glob, os
+import json, glob
 rows = []
 for f in sorted(glob.glob('/verif/seeded/*/meta.json')):
     m = json.load(open(f))
-    rows.append((m['property'], m['name'], m.get('needs_to_manifest', ''), ' '.join(m.get('detected_by', [])),
+    det = m.get('detected_by', [])
+    ran = len(det) + len(m.get('silent', []))
+    fired = ' '.join(det)
+    if ran < 20:
+        fired += f' (of {ran} run)'
+    rows.append((m['property'], m['name'], m.get('needs_to_manifest', ''), fired,
                  'yes' if m.get('own_property_detected') else 'NO', m.get('strengthened', '')))
-print('| property | seeded change (`seeded/<name>/`) | needs, to manifest | own check fires | all checks that fire (quick tier) | strengthening it triggered |')
+print('| property | seeded change (`seeded/<name>/`) | needs, to manifest | own check fires | checks that fire (quick tier; all twenty were run unless noted) | strengthening it triggered |')
 print('|---|---|---|---|---|---|')
 for p, n, need, det, own, st in rows:
     print(f'| {p} | `{n}` | {need} | {own} | {det} | {st} |')
